@@ -491,3 +491,66 @@ Proof.
       repeat (destruct p as [p|p|]; try reflexivity). congruence. }
     rewrite Hm in H. eapply G; [|exact H]. discriminate.
 Qed.
+
+(* Item access has no caller default.  The only string on which it answers without a value and
+   without raising is the empty string on a list root (n0list_._get returns if_not_found = None
+   before it looks at raise_exception); on a dict root it never does.  This is what lets the
+   harness use "item access returns" as its meaning of "the path resolves" everywhere else. *)
+Theorem list_getitem_default_only_empty fuel root x rl root' :
+  list_get fuel root x true rl = Ok (root', LDefault) -> x = [].
+Proof.
+  intros H. unfold list_get in H.
+  assert (G : forall y dflt, dflt <> LDefault ->
+              forall re, (re = true \/ dflt <> LDefault) ->
+              list_get_core fuel root y re rl (if re then LDefault else dflt) = Ok (root', LDefault) -> False).
+  { intros y dflt Hd re _ Hc. unfold list_get_core in Hc.
+    destruct (has_path_char y).
+    - destruct (lfind rl fuel root (tokenize y) (PAt []) root s_root) as [[[r0 m] F]|e0| |] eqn:Ef; try discriminate Hc.
+      + destruct (rest_falsy (f_rest F)); [destruct (f_val F); inversion Hc|].
+        destruct re; injection Hc as _ E; [discriminate E|exact (Hd E)].
+      + destruct (funnelled e0); [|inversion Hc].
+        destruct re; injection Hc as _ E; [discriminate E|exact (Hd E)].
+    - destruct root; try discriminate Hc. destruct (n0eval y); try discriminate Hc.
+      + destruct (norm_idx (length xs) z); [destruct (nth_error xs n); inversion Hc|].
+        destruct re; injection Hc as _ E; [discriminate E|exact (Hd E)].
+      + destruct re; injection Hc as _ E; [discriminate E|exact (Hd E)]. }
+  destruct x as [|c x']; [reflexivity|exfalso].
+  destruct (N.eqb c 63) eqn:Ec.
+  - apply N.eqb_eq in Ec. subst c.
+    eapply (G x' LEmpty ltac:(discriminate) false); [right; discriminate|exact H].
+  - assert (Hm : match c :: x' with
+                 | [] => Ok (root, LDefault)
+                 | 63%N :: x'0 => list_get_core fuel root x'0 false rl LEmpty
+                 | _ => list_get_core fuel root (c :: x') true rl LDefault end
+                 = list_get_core fuel root (c :: x') true rl LDefault).
+    { apply N.eqb_neq in Ec. destruct c as [|p]; [reflexivity|].
+      repeat (destruct p as [p|p|]; try reflexivity). congruence. }
+    rewrite Hm in H.
+    eapply (G (c :: x') LEmpty ltac:(discriminate) true); [left; reflexivity|exact H].
+Qed.
+
+Theorem dict_getitem_never_default fuel root x root' :
+  dict_getitem fuel root x = Ok (root', LDefault) -> False.
+Proof.
+  unfold dict_getitem, dict_get. intros H.
+  assert (G : forall y dflt, dflt <> LDefault -> forall re,
+              dict_get_core fuel root y re true (if re then LDefault else dflt) = Ok (root', LDefault) -> False).
+  { intros y dflt Hd re Hc. unfold dict_get_core in Hc.
+    destruct (has_path_char y).
+    - destruct (find true true fuel root (tokenize y) (PAt []) root s_root) as [[[r0 m] F]|e0| |] eqn:Ef; try discriminate Hc.
+      + destruct (rest_falsy (f_rest F)); [destruct (f_val F); inversion Hc|].
+        destruct re; injection Hc as _ E; [discriminate E|exact (Hd E)].
+      + destruct (funnelled e0); [|inversion Hc].
+        destruct re; injection Hc as _ E; [discriminate E|exact (Hd E)].
+    - destruct root; try discriminate Hc. destruct (lookup y kvs); [inversion Hc|].
+      destruct re; injection Hc as _ E; [discriminate E|exact (Hd E)]. }
+  destruct x as [|c x']; [eapply (G [] LEmpty ltac:(discriminate) true); exact H|].
+  destruct (N.eqb c 63) eqn:Ec.
+  - apply N.eqb_eq in Ec. subst c. eapply (G x' LEmpty ltac:(discriminate) false); exact H.
+  - assert (Hm : match c :: x' with 63%N :: x'0 => dict_get_core fuel root x'0 false true LEmpty
+                                | _ => dict_get_core fuel root (c :: x') true true LDefault end
+                 = dict_get_core fuel root (c :: x') true true LDefault).
+    { apply N.eqb_neq in Ec. destruct c as [|p]; [reflexivity|].
+      repeat (destruct p as [p|p|]; try reflexivity). congruence. }
+    rewrite Hm in H. eapply (G (c :: x') LEmpty ltac:(discriminate) true); exact H.
+Qed.
